@@ -32,7 +32,10 @@ def _exc_info(exc):
 def _child(ctx, step, wfd, outp, errp):
     from . import seams, probes
 
-    os.setpgid(0, 0)
+    try:
+        os.setpgid(0, 0)
+    except OSError:
+        pass  # already a session leader (fresh-interpreter step)
     # stdout / stderr of the command (and of its pool workers) go to files
     fo = os.open(outp, os.O_WRONLY | os.O_CREAT | os.O_TRUNC, 0o600)
     fe = os.open(errp, os.O_WRONLY | os.O_CREAT | os.O_TRUNC, 0o600)
@@ -114,7 +117,23 @@ def run_command(ctx, step):
     rfd, wfd = os.pipe()
     sys.stdout.flush()
     sys.stderr.flush()
-    pid = os.fork()
+    hs = step.get("hashseed")
+    fresh = hs is not None and str(hs) != os.environ.get("PYTHONHASHSEED")
+    if fresh:
+        # a new interpreter with its own string-hash seed, like a second invocation of the real CLI
+        import subprocess
+        env = dict(os.environ, PYTHONHASHSEED=str(hs))
+        proc = subprocess.Popen([sys.executable, "-m", "rsim.stepchild", str(wfd)], pass_fds=[wfd], env=env,
+                                stdin=subprocess.PIPE, stdout=subprocess.DEVNULL, stderr=subprocess.PIPE,
+                                cwd=os.path.dirname(os.path.dirname(os.path.abspath(__file__))), start_new_session=True)
+        try:
+            proc.stdin.write(json.dumps({"ctx": ctx, "step": step}).encode())
+            proc.stdin.close()
+        except BrokenPipeError:
+            pass
+        pid = proc.pid
+    else:
+        pid = os.fork()
     if pid == 0:
         code = 98
         try:
@@ -151,7 +170,14 @@ def run_command(ctx, step):
             os.killpg(pid, signal.SIGKILL)
         except ProcessLookupError:
             pass
-    _, status = os.waitpid(pid, 0)
+    if fresh:
+        try:
+            status = proc.wait(timeout=20)
+        except Exception:
+            proc.kill()
+            status = proc.wait()
+    else:
+        _, status = os.waitpid(pid, 0)
     # reap stray members of the group (pool workers of a crashed command)
     try:
         os.killpg(pid, signal.SIGKILL)
